@@ -41,8 +41,9 @@ def lname(n: str) -> str:
 
 
 class ClassTr:
-    def __init__(self, repo: Path, rel: str, cls: str, skip_fields=("lock",), skip_extra=()) -> None:
+    def __init__(self, repo: Path, rel: str, cls: str, skip_fields=("lock",), skip_extra=(), extra_fields=()) -> None:
         self.skip_extra = set(skip_extra)
+        self._extra_fields = list(extra_fields)      # attributes with a class-level default (not assigned in __init__)
         path = repo / "src" / "pamiq_core" / rel
         try:
             self.src = path.read_text()
@@ -85,6 +86,7 @@ class ClassTr:
                 if vt.endswith("Event()"):
                     self.events.add(f)
                 self.fields.append((f, ty))
+        self.fields += [f for f in self._extra_fields if f[0] not in {x for x, _ in self.fields}]
         self.fnames = {f for f, _ in self.fields}
         self.tmp = 0
 
